@@ -76,8 +76,9 @@ static void do_reads(const std::string& cid, const std::string& fn) {
     delete B;
 }
 
+static bool g_file_be = true;     // byte order of the binary file being written (PETSc's format is big-endian)
 template <class T> static void put_be(std::ofstream& o, T v) {
-    unsigned char* p = reinterpret_cast<unsigned char*>(&v); std::reverse(p, p + sizeof(T)); o.write(reinterpret_cast<char*>(p), sizeof(T)); }
+    unsigned char* p = reinterpret_cast<unsigned char*>(&v); if (g_file_be) std::reverse(p, p + sizeof(T)); o.write(reinterpret_cast<char*>(p), sizeof(T)); }
 
 static void run_case(const std::string& cid, Toks& t) {
     std::string op = t.next(); int P = t.next_int();
@@ -133,7 +134,8 @@ static void run_case(const std::string& cid, Toks& t) {
     } else if (op == "bin") {
         int nr = t.next_int(), nc = t.next_int(), nnz = t.next_int();
         std::vector<int> rowsz = t.ints(nr), cols = t.ints(nnz); std::vector<double> vals = t.nums(nnz);
-        int mode = t.next_int(); Parts pa; pa.parse(t);
+        int mode = t.next_int(); Parts pa; pa.parse(t);       // bit 0: explicit partition, bit 1: file in the machine's (little-endian) byte order
+        g_file_be = !(mode & 2);
         std::string fn = path_of(cid, ".pm");
         if (g_rank == 0) {
             std::ofstream o(fn.c_str(), std::ofstream::binary);
@@ -145,7 +147,7 @@ static void run_case(const std::string& cid, Toks& t) {
             CSRMatrix* R = readMatrix(fn.c_str()); out0(cid, "R", mat_str(R)); delete R;
         }
         MPI_Barrier(MPI_COMM_WORLD);
-        ParCSRMatrix* B = (mode == 0) ? readParMatrix(fn.c_str())
+        ParCSRMatrix* B = !(mode & 1) ? readParMatrix(fn.c_str())
                                       : readParMatrix(fn.c_str(), pa.nr[g_rank], pa.nc[g_rank], pa.fr[g_rank], pa.fc[g_rank]);
         out_all(cid, "PW", windows_str(B));
         out_all(cid, "PR", csr_triples_global(B));
